@@ -225,7 +225,7 @@ def same_tick_scenarios(rep, prog, ix, Eu):
     mrec = ix.parse_type('mapping_state').rec
     M = Automaton(prog, 'init_automata_mapping', 'switch_state_mapping')
     LA = ('sym', 'entry.last_activity', 1, 1 << 61)
-    CLK = ('sym', 'clock.s.0', 1, 1 << 63)
+    CLK = ('sym', 'clock.s.0', 0, 1 << 63)
     for scen in ('fresh', 'expired', 'cleared'):
         for j in (0, 15):
             st = Eu.state0.fork()
@@ -257,6 +257,7 @@ def same_tick_scenarios(rep, prog, ix, Eu):
             else:
                 f = lin_of(CLK).add(lim, -1)
             st.add_fact(f)
+            st.add_fact(lin_of(C(1)).add(lin_of(CLK), -1))          # the (armed, = 1) inactivity deadline is due: 1 <= now
             po = mk_obj(st, 'in:tickport', prec_.size, kind='heap', default='sym')
             lt = mk_obj(st, 'in:last_tx', 8, kind='heap', default='sym')
             lt.cells[((), 0)] = (8, ZERO)
